@@ -482,6 +482,8 @@ def observe(sysm: System) -> Dict[str, Any]:
     """everything the harness needs from a finished run, as plain data"""
     return {
         "fine": list(sysm.sched.fine),
+        "labels": list(sysm.sched.labels),
+        "calls": list(sysm.s3.calls),
         "text": sysm.describe(),
         "outcomes": [sysm.outcome(i) for i in range(len(sysm.kinds))],
         "results": [repr(t.result) for t in sysm.sched.threads],
@@ -494,26 +496,33 @@ def observe(sysm: System) -> Dict[str, Any]:
     }
 
 
+SUBTREE_LIMIT = 60000  # safety valve: a changed protocol may have vastly more interleavings
+
+
 def _subtree(args):
     kinds, workers, coarse, root, depth, gate = args
-    return [observe(sm) for _, sm in all_schedules(kinds, workers, coarse, root=root, lo=depth, gate_fin=gate)]
+    out = [observe(sm) for _, sm in all_schedules(kinds, workers, coarse, root=root, lo=depth, gate_fin=gate,
+                                                  limit=SUBTREE_LIMIT)]
+    return out
 
 
 def enumerate_all(kinds, workers, coarse: Optional[frozenset] = None, procs: int = 1, depth: int = 5,
                   gate_fin: bool = False):
     """All maximal schedules, enumerated in `procs` processes (sub-trees below the distinct
-    prefixes of length `depth`); result order is deterministic."""
-    if procs <= 1:
-        return [observe(sm) for _, sm in all_schedules(kinds, workers, coarse, gate_fin=gate_fin)]
+    prefixes of length `depth`); result order is deterministic.  Returns (observations,
+    truncated) - truncated iff some sub-tree hit SUBTREE_LIMIT."""
     roots = []
     for ch, _ in all_schedules(kinds, workers, coarse, hi=depth, gate_fin=gate_fin):
         roots.append(ch[:depth])
-    import multiprocessing as mp
+    tasks = [(kinds, workers, coarse, r, depth, gate_fin) for r in roots]
+    if procs <= 1:
+        parts = [_subtree(t) for t in tasks]
+    else:
+        import multiprocessing as mp
 
-    ctx = mp.get_context("fork")
-    with ctx.Pool(min(procs, len(roots))) as pool:
-        parts = pool.map(_subtree, [(kinds, workers, coarse, r, depth, gate_fin) for r in roots], chunksize=1)
-    return [o for part in parts for o in part]
+        with mp.get_context("fork").Pool(min(procs, len(roots))) as pool:
+            parts = pool.map(_subtree, tasks, chunksize=1)
+    return [o for part in parts for o in part], any(len(part) >= SUBTREE_LIMIT for part in parts)
 
 
 def run_random(kinds, workers, seed: int, stutter_p: float = 0.15, gate_fin: bool = False):
